@@ -93,7 +93,7 @@ func (c12Prop) Check(c Case) Outcome {
 	if v, ok := c.Extra["iters"].(float64); ok {
 		iters = int(v)
 	}
-	pert, perturbed := c.Extra["perturb"].(float64)
+	pert, perturbed := c.Extra["perturb"].(float64) // storage-callback perturbation of this round
 	so := StoreOpts{Pure: true}
 	if perturbed {
 		so.PerturbSeed = uint64(pert)
@@ -179,11 +179,8 @@ func (c12Prop) Check(c Case) Outcome {
 			}
 		}
 	}
-	if perturbed {
-		WithPurePerturbation(uint64(pert), body)
-	} else {
-		body()
-	}
+	InstallPurePerturbation()
+	body()
 	for _, s := range stores {
 		for _, m := range s.VerifyPristine() {
 			o.Add("storage-labels-modified", m)
